@@ -12,6 +12,14 @@ Record robs := mkobs {
   o_nf : nat                     (* calls of the custom not-found handler *)
 }.
 
+(* registration through the engine: what bindRoutes returned, the paths stored in ng.routes (after
+   WithPrefix) and every Router.Handle call the engine made, with its verdict *)
+Record eobs := mkeobs {
+  e_err : nat;
+  e_paths : list (list N);
+  e_calls : list (string * list N * nat)
+}.
+
 Record case := mkcase {
   c_tree : bool;                           (* true: lib/search Tree.Add / Tree.Search on raw routes *)
   c_nf : bool;                             (* custom not-found handler installed *)
@@ -19,7 +27,9 @@ Record case := mkcase {
   c_errs : list nat;                       (* observed: 0 ok 1 method 2 path 3 dup 4 dupslash 5 notfromroot 6 invalidstate 9 other *)
   c_rclean : list (list N);                (* observed path.Clean of every registered path *)
   c_reqs : list (string * list N);
-  c_res : list robs
+  c_res : list robs;
+  c_groups : list group;                   (* engine cases: groups as given to AddRoutes (ids = flat index) *)
+  c_eng : option eobs                      (* Some: engine case (c_regs .. c_rclean unused) *)
 }.
 
 Definition err_code (e : option err) : nat :=
@@ -85,10 +95,32 @@ Fixpoint all2 {A B} (f : A -> B -> bool) (l1 : list A) (l2 : list B) : bool :=
   | _, _ => false
   end.
 
+(* the Handle calls the engine makes: every route in order, up to and including the first error *)
+Fixpoint model_calls (tb : table) (rs : list reg) : list (string * list N * nat) :=
+  match rs with
+  | [] => []
+  | r :: rest =>
+      let (tb', e) := handle tb (fst (fst r)) (snd (fst r)) (snd r) in
+      (fst (fst r), snd (fst r), err_code e) :: match e with Some _ => [] | None => model_calls tb' rest end
+  end.
+
+Definition call_eqb (a b : string * list N * nat) : bool :=
+  String.eqb (fst (fst a)) (fst (fst b)) && bytes_eqb (snd (fst a)) (snd (fst b)) && Nat.eqb (snd a) (snd b).
+
 Definition model_ok (c : case) : bool :=
-  match model_regs (c_tree c) [] 0 (c_regs c) (c_errs c) (c_rclean c) with
-  | Some tb => all2 (model_req (c_tree c) (c_nf c) tb) (c_reqs c) (c_res c)
-  | None => false
+  match c_eng c with
+  | Some eo =>
+      let rs := engine_routes (c_groups c) in
+      let (tb, e) := engine_register (c_groups c) in
+      list_eqb bytes_eqb (map (fun r => snd (fst r)) rs) (e_paths eo) &&
+      Nat.eqb (err_code e) (e_err eo) &&
+      list_eqb call_eqb (model_calls [] rs) (e_calls eo) &&
+      all2 (model_req false false tb) (c_reqs c) (c_res c)
+  | None =>
+      match model_regs (c_tree c) [] 0 (c_regs c) (c_errs c) (c_rclean c) with
+      | Some tb => all2 (model_req (c_tree c) (c_nf c) tb) (c_reqs c) (c_res c)
+      | None => false
+      end
   end.
 
 (* ------------------------------------------------------------------ the property on observations *)
@@ -177,12 +209,40 @@ Definition spec_req_tree (acc : list route) (mp : string * list N) (o : robs) : 
       else true
   end.
 
+(* a handler that ran belongs to a matching pattern of acc (nothing is required to run) *)
+Definition spec_req_sound (acc : list route) (mp : string * list N) (o : robs) : bool :=
+  let (m, p) := mp in
+  match o_hids o with
+  | [] => true
+  | [h] => match req_segs (clean p) with
+           | Some q => existsb (fun r => Nat.eqb (r_id r) h && vars_ok (r_pat r) q (o_vars o)) (matches acc m q)
+           | None => false
+           end
+  | _ => false
+  end.
+
+(* engine: the routes the application added (prefix-joined) are registered in order; if one of them
+   must be rejected the start-up must fail, and then no handler outside the routes accepted before
+   it may be reachable; an error-free start-up registers all of them and routes like the router *)
+Definition spec_engine (c : case) (eo : eobs) : bool :=
+  let rs := engine_routes (c_groups c) in
+  let (acc, verdict) := sbind [] rs in
+  match verdict with
+  | Some _ => negb (Nat.eqb (e_err eo) 0) && all2 (spec_req_sound acc) (c_reqs c) (c_res c)
+  | None => if Nat.eqb (e_err eo) 0 then all2 (spec_req false acc) (c_reqs c) (c_res c)
+            else all2 (spec_req_sound acc) (c_reqs c) (c_res c)
+  end.
+
 Definition spec_ok (c : case) : bool :=
-  match spec_regs (c_tree c) [] 0 (c_regs c) (c_errs c) with
-  | Some acc =>
-      if c_tree c then all2 (spec_req_tree acc) (c_reqs c) (c_res c)
-      else all2 (spec_req (c_nf c) acc) (c_reqs c) (c_res c)
-  | None => false
+  match c_eng c with
+  | Some eo => spec_engine c eo
+  | None =>
+      match spec_regs (c_tree c) [] 0 (c_regs c) (c_errs c) with
+      | Some acc =>
+          if c_tree c then all2 (spec_req_tree acc) (c_reqs c) (c_res c)
+          else all2 (spec_req (c_nf c) acc) (c_reqs c) (c_res c)
+      | None => false
+      end
   end.
 
 (* used by the encoder for tree-level cases, where path.Clean is not involved *)
